@@ -208,7 +208,8 @@ type Fill struct {
 	Runs map[string]string
 	// Relayout renders the second and later occurrences of an expression metavariable's filler with
 	// another layout (doubled blanks, or a trailing comment): the same syntax, another source extent.
-	Relayout bool
+	Relayout  bool
+	NoComment bool // Relayout without the trailing-comment variant
 }
 
 // delimited reports whether every occurrence of «name» in tmpl sits between list/bracket
@@ -282,6 +283,7 @@ func (c *Change) Instance(g *G) (string, *Fill) {
 		f.Runs[sm[1]] = g.Run(sm[2], g.R.Intn(4))
 	}
 	f.Relayout = g.R.Intn(3) == 0
+	f.NoComment = g.NoRelayoutComment
 	return c.Substitute(minus, f), f
 }
 
@@ -361,6 +363,9 @@ func (c *Change) Substitute(tmpl string, f *Fill) string {
 			if f.Relayout && seen[name] > 1 && kinds[name] == "expression" && !strings.Contains(v, "\n") && !strings.Contains(v, "`") && !strings.Contains(v, "\"") {
 				if strings.Contains(v, " ") {
 					return strings.ReplaceAll(v, " ", "  ")
+				}
+				if f.NoComment {
+					return v
 				}
 				return v + RelayoutComment
 			}
